@@ -43,6 +43,17 @@ def int_box(arg):
     a = dict(arg); a['lo'] = lo; a['hi'] = hi
     return a
 
+def rejected_bounds(rng, bounds, dim):
+    bad = {'lo': list(bounds['lo']), 'hi': list(bounds['hi']), 'invalid': True}
+    i = rng.randrange(dim)
+    l_, h_ = bad['lo'][i], bad['hi'][i]
+    if l_ == h_ or abs(l_) == inf or abs(h_) == inf: bad['lo'][i], bad['hi'][i] = 2.0, 1.0
+    else: bad['lo'][i], bad['hi'][i] = h_, l_
+    t_ = rng.choice([(True, None), (True, None), (None, None), (None, True), (True, False), (False, None)])
+    if t_[0] is not None: bad['tight'] = t_[0]
+    if t_[1] is not None: bad['clip'] = t_[1]
+    return bad
+
 def gen_limits(rng, k, solver, dim):
     small = k['small_limits']
     g = rng.choice([None, None, 0, 1, 2, 3, 5, 8, 12] if small else [None, 5, 10, 20, 40])
@@ -121,6 +132,10 @@ def gen_solver_plan(seed, tier, prop, knobs=None):
         conf.append({'op': 'set', 'what': 'handler', 'arg': True})
     head, tail = conf[:1], conf[1:]
     rng.shuffle(tail)
+    if bounds and rng.random() < k.get('p_reject', 0.0):
+        # a reconfiguration that must be rejected (min > max on one side), right after the ranges were installed
+        bi = next(i for i, o in enumerate(tail) if o['what'] == 'bounds')
+        tail.insert(bi + 1, {'op': 'set', 'what': 'bounds', 'arg': rejected_bounds(rng, bounds, dim)})
     if rng.random() < 0.3:
         tail.insert(rng.randrange(len(tail) + 1), {'op': 'set', 'what': 'objective'})
     ops = head + tail
@@ -159,15 +174,7 @@ def gen_solver_plan(seed, tier, prop, knobs=None):
                         ops.append({'op': 'set', 'what': 'bounds', 'arg': bad})
                     if rng.random() < k.get('p_reject', 0.0):
                         # a reconfiguration that must be rejected (min > max on one side): the ranges in force stay in force
-                        bad = {'lo': list(bounds['lo']), 'hi': list(bounds['hi']), 'invalid': True}
-                        i = rng.randrange(dim)
-                        l_, h_ = bad['lo'][i], bad['hi'][i]
-                        if l_ == h_ or abs(l_) == inf or abs(h_) == inf: bad['lo'][i], bad['hi'][i] = 2.0, 1.0
-                        else: bad['lo'][i], bad['hi'][i] = h_, l_
-                        t_ = rng.choice([(True, None), (None, None), (None, True), (True, False), (False, None)])
-                        if t_[0] is not None: bad['tight'] = t_[0]
-                        if t_[1] is not None: bad['clip'] = t_[1]
-                        ops.append({'op': 'set', 'what': 'bounds', 'arg': bad})
+                        ops.append({'op': 'set', 'what': 'bounds', 'arg': rejected_bounds(rng, bounds, dim)})
             elif what == 'termination':
                 t = gen.gen_simple_term(rng, solver)
                 if t: ops.append({'op': 'set', 'what': 'termination', 'arg': t})
